@@ -666,7 +666,9 @@ where
                     symbol = symbol - step;
                 } else {
                     // We're still in the downward search phase with exponentially increasing step size.
-                    if step << 1 != Symbol::zero() {
+                    // Double the step unless that would overflow (for signed `Symbol` types,
+                    // shifting into the sign bit yields a negative step, not zero).
+                    if step << 1 > step {
                         step = step << 1;
                     }
 
@@ -748,7 +750,9 @@ where
                     symbol = symbol + step;
                 } else {
                     // We're still in the upward search phase with exponentially increasing step size.
-                    if step << 1 != Symbol::zero() {
+                    // Double the step unless that would overflow (for signed `Symbol` types,
+                    // shifting into the sign bit yields a negative step, not zero).
+                    if step << 1 > step {
                         step = step << 1;
                     }
 
